@@ -532,3 +532,98 @@ Print Assumptions C08_period_units.
 Example C08_period_example : period_fs 9 7 = 142857 /\ period_fs 8 3 = 333333333 /\ period_fs 9 4 = 250000 /\ period_fs 3 7 = 7000000.
 Proof. repeat split; reflexivity. Qed.
 Print Assumptions C08_period_example.
+
+(* ---------------------------------------------------------------- translated source (translator unit "pyclock") *)
+(* coq/Gen/PyClockGen.v is regenerated from /repo/amaranth/sim/_pyclock.py on every run; Proofs/GenEqPyclock.v proves the
+   regenerated PyClockProcess equal to the clock process of Model/Engine.v for every object, slot heap and time.
+   A process object is the model's  PS runnable [initial] timer  (abs_pstate); the update() / set_delay_waker() calls
+   of run() are returned as effects: the writes and the delay of the model's `pres` (abs_pres). *)
+From V.Proofs Require GenEqPyclock.
+From V.Gen Require PyClockGen.
+
+Theorem C08_translated_clock_run self cu :
+  GenEqPyclock.abs_pres (PyClockGen.PyClockProcess_run (GenEqPyclock.slots_of cu) self) =
+  clock_run (PyClockGen.PyClockProcess_slot self) (PyClockGen.PyClockProcess_phase self)
+            (PyClockGen.PyClockProcess_period self) (GenEqPyclock.abs_local self) cu.
+Proof. exact (GenEqPyclock.gen_clock_run_eq self cu). Qed.
+Print Assumptions C08_translated_clock_run.
+
+(* run() keeps slot / phase / period / critical, clears runnable and initial, and registers exactly one waker, which
+   sets `runnable` and nothing else *)
+Theorem C08_translated_clock_run_frame self cur :
+  let r := PyClockGen.PyClockProcess_run cur self in
+  PyClockGen.PyClockProcess_slot (fst r) = PyClockGen.PyClockProcess_slot self /\
+  PyClockGen.PyClockProcess_phase (fst r) = PyClockGen.PyClockProcess_phase self /\
+  PyClockGen.PyClockProcess_period (fst r) = PyClockGen.PyClockProcess_period self /\
+  PyClockGen.PyClockProcess_critical (fst r) = PyClockGen.PyClockProcess_critical self /\
+  PyClockGen.PyClockProcess_runnable (fst r) = false /\
+  PyClockGen.PyClockProcess_initial (fst r) = false /\
+  exists w, GenEqPyclock.eff_wakers (snd r) = [w] /\ forall p, w p = GenEqPyclock.wake p.
+Proof. exact (GenEqPyclock.gen_clock_run_frame self cur). Qed.
+Print Assumptions C08_translated_clock_run_frame.
+
+(* one scheduled run in the engine model: proc_step of clock_proc on the abstracted object *)
+Theorem C08_translated_clock_proc_step self now timer cu nx :
+  let r := PyClockGen.PyClockProcess_run (GenEqPyclock.slots_of cu) self in
+  exists d, GenEqPyclock.eff_delay (snd r) = Some d /\
+  proc_step (clock_proc (PyClockGen.PyClockProcess_slot self) (PyClockGen.PyClockProcess_phase self)
+                        (PyClockGen.PyClockProcess_period self))
+            now (GenEqPyclock.abs_pstate self timer) cu nx =
+  (GenEqPyclock.abs_pstate (fst r) (Some (now + d)), GenEqPyclock.eff_writes (snd r)).
+Proof. exact (GenEqPyclock.gen_clock_proc_step_eq self now timer cu nx). Qed.
+Print Assumptions C08_translated_clock_proc_step.
+
+(* the waker, fired by the timeline at its deadline, is the model's ps_fire *)
+Theorem C08_translated_clock_waker p D :
+  GenEqPyclock.abs_pstate (GenEqPyclock.wake p) None = ps_fire D (GenEqPyclock.abs_pstate p (Some D)).
+Proof. exact (GenEqPyclock.gen_clock_waker_eq p D). Qed.
+Print Assumptions C08_translated_clock_waker.
+
+(* __init__ (reset() inlined) builds clock_pstate; reset() rebuilds the same object *)
+Theorem C08_translated_clock_init slot phase period :
+  let p := PyClockGen.PyClockProcess_init slot phase period in
+  GenEqPyclock.abs_pstate p None = clock_pstate /\
+  PyClockGen.PyClockProcess_slot p = slot /\ PyClockGen.PyClockProcess_phase p = phase /\
+  PyClockGen.PyClockProcess_period p = period /\ PyClockGen.PyClockProcess_critical p = false.
+Proof. exact (GenEqPyclock.gen_clock_init_eq slot phase period). Qed.
+Print Assumptions C08_translated_clock_init.
+
+Theorem C08_translated_clock_reset self :
+  PyClockGen.PyClockProcess_reset self =
+  PyClockGen.PyClockProcess_init (PyClockGen.PyClockProcess_slot self) (PyClockGen.PyClockProcess_phase self)
+                                 (PyClockGen.PyClockProcess_period self).
+Proof. exact (GenEqPyclock.gen_clock_reset_eq self). Qed.
+Print Assumptions C08_translated_clock_reset.
+
+(* Period(unit=v).femtoseconds for an integer v (hdl/_time.py, regenerated): the model's period_fs; a frequency must be
+   positive (otherwise the source raises, second theorem) *)
+Theorem C08_translated_period_init u v :
+  (u <= 9)%nat -> ((6 <= u)%nat -> 0 < v) ->
+  PyClockGen.Period_init [(GenEqPyclock.unit_name u, PyClockGen.real_of_Z v)] =
+  Some (PyClockGen.Build_Period (period_fs u v)).
+Proof. exact (GenEqPyclock.gen_period_init_eq u v). Qed.
+Print Assumptions C08_translated_period_init.
+
+Theorem C08_translated_period_init_raises u v a b l :
+  ((6 <= u)%nat -> v <= 0 -> PyClockGen.Period_init [(GenEqPyclock.unit_name u, PyClockGen.real_of_Z v)] = None) /\
+  PyClockGen.Period_init (a :: b :: l) = None /\
+  PyClockGen.Period_init [] = Some (PyClockGen.Build_Period 0).
+Proof.
+  split; [exact (GenEqPyclock.gen_period_init_nonpositive_frequency u v)|].
+  split; [exact (GenEqPyclock.gen_period_init_two_raises a b l)|exact GenEqPyclock.gen_period_init_empty_eq].
+Qed.
+Print Assumptions C08_translated_period_init_raises.
+
+(* period / 2 (Period.__truediv__, real-number branch): round-half-to-even of the exact quotient = default_phase *)
+Theorem C08_translated_period_half p :
+  PyClockGen.Period_truediv_real (PyClockGen.Build_Period p) (PyClockGen.real_of_Z 2) =
+  Some (PyClockGen.Build_Period (default_phase p)).
+Proof. exact (GenEqPyclock.gen_period_half_eq p). Qed.
+Print Assumptions C08_translated_period_half.
+
+(* Simulator.add_clock: the (phase, period) femtoseconds handed to add_clock_process, i.e. to PyClockProcess.__init__ *)
+Theorem C08_translated_add_clock p ph :
+  PyClockGen.Simulator_add_clock_args (PyClockGen.Build_Period p) None = Some (default_phase p, p) /\
+  PyClockGen.Simulator_add_clock_args (PyClockGen.Build_Period p) (Some (PyClockGen.Build_Period ph)) = Some (ph, p).
+Proof. split; [exact (GenEqPyclock.gen_add_clock_default_eq p)|exact (GenEqPyclock.gen_add_clock_phase_eq p ph)]. Qed.
+Print Assumptions C08_translated_add_clock.
